@@ -69,6 +69,7 @@ def job_specs(draw, max_tasks: int = 14, min_tasks: int = 0, max_outs: int = 4, 
               ext: str = "any", shape_bias: bool = True) -> dict:
     n = draw(st.integers(min_tasks, max_tasks))
     perm = draw(st.permutations(list(range(n)))) if n else []
+    padded = draw(st.booleans())  # "t2" vs "t02": with unpadded names string order and numeric order of task names differ
     # shape: probability of drawing an edge slot, and how far back sources are picked
     edge_pct = draw(st.sampled_from([0, 20, 50, 80, 100])) if shape_bias else 50
     chainy = draw(st.booleans())
@@ -84,7 +85,7 @@ def job_specs(draw, max_tasks: int = 14, min_tasks: int = 0, max_outs: int = 4, 
                 outs = draw(st.permutations(["upper", "lower", "mid", "aux"][:nouts]))  # declared in any order; yields follow key order
             elif style == 1:
                 outs = list(draw(st.permutations(outs)))  # numeric names, declared shuffled
-        nargs = draw(st.integers(0, 3))
+        nargs = draw(st.sampled_from([0, 1, 1, 2, 2, 3, 3, 11, 12]))  # > 10 positions: "10" sorts before "2" as a string
         nkw = draw(st.integers(0, 2))
 
         def slot():
@@ -98,7 +99,7 @@ def job_specs(draw, max_tasks: int = 14, min_tasks: int = 0, max_outs: int = 4, 
         kws = draw(st.lists(st.sampled_from(_kwnames), min_size=nkw, max_size=nkw, unique=True))
         kwargs = {k: slot() for k in kws}
         tasks.append({
-            "name": task_name(perm[i]),
+            "name": task_name(perm[i]) if padded else f"t{perm[i]}",
             "outs": outs,
             "gpu": bool(gpu and draw(st.integers(0, 9)) == 0),
             "args": args,
